@@ -17,6 +17,8 @@ import (
 
 // C05 — trie router core (middleware/denco). Case kinds:
 //   tab    one Build, the dumped arrays, several lookups
+//   look   one Build and many lookups without the dumped arrays (trie model + property only; the
+//          continuation chunks of a big path list whose first chunk is a tab case)
 //   order  the same records built in two orders, the same lookups against both
 //   mux    denco.Mux handler selection for (method, URL.Path)
 //   const  a constant of the Go source the model mirrors
@@ -30,7 +32,8 @@ type c05In struct {
 	ReqM    []Bs     `json:"reqm,omitempty"`
 	Name    string   `json:"name,omitempty"` // const
 	Model   int      `json:"model,omitempty"`
-	Origin  []string `json:"origin,omitempty"` // how each path was produced (distribution report only)
+	Origin  []string `json:"origin,omitempty"`  // how each path was produced (distribution report only)
+	Flavour string   `json:"flavour,omitempty"` // which generator made the table (distribution report only)
 }
 
 type c05Param struct {
@@ -73,7 +76,13 @@ func (c05) Rule() string {
 		"random record with texts over an alphabet that over-weights : * # = / % and NUL, 15% one-edit mutants, 15% arbitrary bytes; every table's " +
 		"BASE/CHECK and node arrays dumped and run through repr_check; order cases rebuild the same records shuffled; mux cases go through denco.Mux; " +
 		"enumerated: every byte 0..255 as a whole segment and inside a segment against a fixed table; adversarial tables outside the domain " +
-		"(termination byte / NUL in a key, two keys of one shape, duplicate names). Non-trivial: a table with a parameterised key and at least one lookup that is found with parameters or contains a reserved byte."
+		"(termination byte / NUL in a key, two keys of one shape, duplicate names). Scheduled by case index, under every seed: 1 case in 10 'verbs' = " +
+		"tables with parameter-free keys that hold ':' or '*' inside a segment (/v1/op:list, /g/a*b; such words also occur in the general segment grammar), " +
+		"next to keys continuing the same prefix with a real parameter, looked up with the key itself and its near misses around the byte (byte dropped, replaced, " +
+		"doubled, key cut there, text written as if the byte were a placeholder); 1 case in 10 'tails' = 10-40 parameterised routes sharing prefixes " +
+		"(half of them with the dumped arrays and repr_check, half lookups only), ~90 paths each: a complete pattern (instantiated or verbatim) + a reserved byte " +
+		"(# NUL : *) + nothing / what is left of another instantiated pattern from some offset, and 'guided' paths read off the real array: whenever a cell carries " +
+		"the CHECK of a reserved byte the path that reaches it and walks on over fitting cells to an end-of-key cell. Enumerated fixed tables of both families. Non-trivial: a table with a parameterised key and at least one lookup that is found with parameters or contains a reserved byte."
 }
 
 func (c05) Decode(raw json.RawMessage) (any, error) {
@@ -146,6 +155,15 @@ func (c05) Run(in0 any) any {
 				nd.Names = toBs(names[i])
 			}
 			obs.Nodes = append(obs.Nodes, nd)
+		}
+		for _, path := range in.Paths {
+			obs.Ans = append(obs.Ans, c05Lookup(rt, string(path)))
+		}
+	case "look":
+		rt, e, p := c05Build(keys, c05Iota(len(keys)))
+		obs.BuildErr, obs.BuildPanic = e, p
+		if e != "" || p != "" {
+			return obs
 		}
 		for _, path := range in.Paths {
 			obs.Ans = append(obs.Ans, c05Lookup(rt, string(path)))
@@ -254,6 +272,15 @@ func (c05) Coq(in0 any, obs0 any) string {
 			coqList(obs.Nodes, func(n c05Node) string {
 				return coqPair(c05CoqNat(n.Value), coqBytesList(bsList(n.Names)))
 			}),
+			coqList(ls, func(s string) string { return s }))
+	case "look":
+		var ls []string
+		if !failed {
+			for i, p := range in.Paths {
+				ls = append(ls, coqPair(coqBytes(string(p)), c05CoqAns(obs.Ans[i])))
+			}
+		}
+		return fmt.Sprintf("CLook %s %s %s", c05CoqPats(in.Pats, c05Iota(len(in.Pats))), coqBool(failed),
 			coqList(ls, func(s string) string { return s }))
 	case "order":
 		var ls []string
@@ -375,7 +402,12 @@ func c05Segment(r *rand.Rand, last bool, used map[string]bool) string {
 	switch k := r.Intn(20); {
 	case k < 10:
 		return c05Words[r.Intn(6)]
+	case k < 11:
+		return c05Words[r.Intn(len(c05Words))]
 	case k < 12:
+		if r.Intn(2) == 0 {
+			return c05VerbWords[r.Intn(len(c05VerbWords))] // ':' or '*' in mid-segment
+		}
 		return c05Words[r.Intn(len(c05Words))]
 	case k < 17:
 		return ":" + name()
@@ -584,7 +616,13 @@ func c05Paths(r *rand.Rand, keys []string, n int) (paths []Bs, origin []string) 
 		var p, o string
 		switch k := r.Intn(20); {
 		case k < 14:
-			p, o = c05InstantiateK(r, keys[r.Intn(len(keys))], keys), "inst"
+			key := keys[r.Intn(len(keys))]
+			if !c05IsParamKey(key) && strings.ContainsAny(key, ":*") && r.Intn(2) == 0 {
+				nm := c05NearMisses(r, key)
+				p, o = nm[r.Intn(len(nm))], "nearmiss"
+			} else {
+				p, o = c05InstantiateK(r, key, keys), "inst"
+			}
 		case k < 17:
 			p, o = c05Mutate(r, c05Instantiate(r, keys[r.Intn(len(keys))])), "mutant"
 		default:
@@ -620,7 +658,447 @@ var c05Adversarial = [][]string{
 	{"/:x/*w", "/:y/*w", "/a/:y/b"}, // shapes collide after the names are stripped
 }
 
+// ---------- reserved bytes inside a literal segment (keys such as /v1/operations:list, /v1/glob/a*b) ----------
+
+// Words holding ':' or '*' that neither open a segment nor follow '='. In a key without "/:", "/*", "=:"
+// they are plain text (the key is static); inside a parameterised key Build turns the byte into a
+// placeholder, and so do tok / c05Shape.
+var c05VerbWords = []string{"op:list", "a:b", "a*b", "ab:", "x*", "v1:x", "a:b:c", "a*:b", "\xc3\xa9:z", "users:get", "ab*c"}
+
+func c05StaticSeg(r *rand.Rand) string { return c05Words[r.Intn(6)] }
+
+// c05VerbKeys returns a static key with a reserved byte in mid-segment plus relatives of it: the same
+// prefix continued by a real parameter, and (sometimes) a parameterised key that contains the word.
+func c05VerbKeys(r *rand.Rand) []string {
+	var pre strings.Builder
+	for n := r.Intn(3); n > 0; n-- {
+		pre.WriteByte('/')
+		pre.WriteString(c05StaticSeg(r))
+	}
+	w := c05VerbWords[r.Intn(len(c05VerbWords))]
+	cut := strings.IndexAny(w, ":*")
+	key := pre.String() + "/" + w
+	for n := r.Intn(3); n > 0; n-- {
+		key += "/" + c05StaticSeg(r)
+		if r.Intn(4) == 0 {
+			key += string([]byte{":*"[r.Intn(2)]}) + "z" // still no "/:" "/*" "=:"
+		}
+	}
+	out := []string{key}
+	name := c05Names[r.Intn(len(c05Names))]
+	switch r.Intn(6) {
+	case 0, 1, 2:
+		k := pre.String() + "/" + w[:cut] + "/:" + name
+		if r.Intn(2) == 0 {
+			k += "/" + c05StaticSeg(r)
+		}
+		out = append(out, k)
+	case 3:
+		out = append(out, pre.String()+"/"+w[:cut]+"/*"+name)
+	case 4:
+		out = append(out, pre.String()+"/"+w+"/:"+name) // here the word's ':' or '*' IS a placeholder
+	}
+	if r.Intn(3) == 0 {
+		out = append(out, pre.String()+"/"+w[:cut]) // the literal part alone
+	}
+	return out
+}
+
+func c05VerbTable(r *rand.Rand, size int) []string {
+	seen := map[string]bool{}
+	var keys []string
+	add := func(k string) {
+		s, _ := c05Shape(k)
+		if seen[s] || !c05KeyInDomain(k) {
+			return
+		}
+		seen[s] = true
+		keys = append(keys, k)
+	}
+	for tries := 0; len(keys) < size && tries < size*6; tries++ {
+		if r.Intn(5) < 2 {
+			for _, k := range c05VerbKeys(r) {
+				add(k)
+			}
+		} else {
+			add(c05Key(r, keys))
+		}
+	}
+	return keys
+}
+
+// c05InstAsIf writes a text for EVERY ':' and '*' of the key, whether or not the key is parameterised:
+// for a static key with a reserved byte in mid-segment these are the near misses that match once the
+// byte is (wrongly) taken for a placeholder.
+func c05InstAsIf(r *rand.Rand, key string) string {
+	var sb strings.Builder
+	for i := 0; i < len(key); {
+		switch key[i] {
+		case ':':
+			for i < len(key) && key[i] != '/' {
+				i++
+			}
+			sb.WriteString(c05Benign[r.Intn(len(c05Benign))])
+		case '*':
+			sb.WriteString([]string{"a/b/c", "bc", "/", "x"}[r.Intn(4)])
+			i = len(key)
+		default:
+			sb.WriteByte(key[i])
+			i++
+		}
+	}
+	return sb.String()
+}
+
+// c05NearMisses: the key itself and its neighbours around every ':' / '*' it holds.
+func c05NearMisses(r *rand.Rand, key string) []string {
+	out := []string{key, c05InstAsIf(r, key), c05InstAsIf(r, key), key + "/x", key + "x"}
+	for i := 0; i < len(key); i++ {
+		if key[i] != ':' && key[i] != '*' {
+			continue
+		}
+		out = append(out, key[:i], key[:i+1], key[:i]+key[i+1:], key[:i]+"x"+key[i+1:], key[:i]+"/"+key[i+1:],
+			key[:i+1]+string(key[i])+key[i+1:], key[:i+1]+"x", key[:i]+"XYZ", key[:i]+"/a/b")
+	}
+	return out
+}
+
+func c05VerbPaths(r *rand.Rand, keys []string, limit int) (paths []Bs, origin []string) {
+	var cand []string
+	for _, k := range keys {
+		if strings.ContainsAny(k, ":*") {
+			cand = append(cand, c05NearMisses(r, k)...)
+		}
+	}
+	r.Shuffle(len(cand), func(i, j int) { cand[i], cand[j] = cand[j], cand[i] })
+	seen := map[string]bool{}
+	for _, p := range cand {
+		if len(paths) >= limit {
+			break
+		}
+		if !seen[p] {
+			seen[p] = true
+			paths = append(paths, Bs(p))
+			origin = append(origin, "nearmiss")
+		}
+	}
+	return
+}
+
+// ---------- reserved byte right after a complete pattern, on tables of 10-40 parameterised routes ----------
+
+var c05Res = []string{"users", "orgs", "repos", "teams", "gists", "issues", "pulls", "keys", "members", "followers",
+	"comments", "star", "v1", "items", "tags", "a", "ab"}
+var c05Benign = []string{"bob", "7", "o", "r1", "acme", "12", "x-y", "a.b", "\xc3\xa9", "u"}
+
+func c05ApiKey(r *rand.Rand, existing []string) string {
+	var sb strings.Builder
+	used := map[string]bool{}
+	if len(existing) > 0 && r.Intn(4) > 0 {
+		src := existing[r.Intn(len(existing))]
+		segs := strings.Split(strings.TrimPrefix(src, "/"), "/")
+		for _, s := range segs[:r.Intn(len(segs)+1)] {
+			if strings.HasPrefix(s, "*") || s == "" {
+				break
+			}
+			if i := strings.Index(s, ":"); i >= 0 {
+				used[s[i+1:]] = true
+			}
+			sb.WriteByte('/')
+			sb.WriteString(s)
+		}
+	}
+	name := func() string {
+		for _, n := range append(c05Names, "user", "org", "owner", "repo", "number") {
+			if !used[n] && r.Intn(3) == 0 {
+				used[n] = true
+				return n
+			}
+		}
+		n := fmt.Sprintf("p%d", len(used))
+		used[n] = true
+		return n
+	}
+	n := 1 + r.Intn(3)
+	for i := 0; i < n; i++ {
+		sb.WriteByte('/')
+		switch k := r.Intn(20); {
+		case k < 11:
+			sb.WriteString(c05Res[r.Intn(len(c05Res))])
+		case k < 18:
+			sb.WriteString(":" + name())
+		case k < 19:
+			sb.WriteString(c05Res[r.Intn(len(c05Res))] + "=:" + name())
+		default:
+			if i == n-1 {
+				sb.WriteString("*" + name())
+			} else {
+				sb.WriteString(c05Res[r.Intn(len(c05Res))])
+			}
+		}
+	}
+	k := sb.String()
+	if !c05IsParamKey(k) && r.Intn(8) > 0 {
+		k += "/:" + name()
+		if r.Intn(2) == 0 {
+			k += "/" + c05Res[r.Intn(len(c05Res))]
+		}
+	}
+	return k
+}
+
+func c05ApiTable(r *rand.Rand, size int) []string {
+	seen := map[string]bool{}
+	var keys []string
+	for tries := 0; len(keys) < size && tries < size*8; tries++ {
+		k := c05ApiKey(r, keys)
+		s, _ := c05Shape(k)
+		if seen[s] || !c05KeyInDomain(k) {
+			continue
+		}
+		seen[s] = true
+		keys = append(keys, k)
+	}
+	return keys
+}
+
+// c05BenignInst instantiates a key with short harmless texts (the hostile texts are the business of the
+// other generators): the path is found, through the full literal text of the pattern.
+func c05BenignInst(r *rand.Rand, key string) string {
+	if !c05IsParamKey(key) {
+		return key
+	}
+	return c05InstAsIf(r, key)
+}
+
+// c05TailOf: what is left of an instantiated key from some offset on.
+func c05TailOf(r *rand.Rand, keys []string) string {
+	p := c05BenignInst(r, keys[r.Intn(len(keys))])
+	if r.Intn(2) == 0 {
+		var cuts []int
+		for i := 0; i < len(p); i++ {
+			if p[i] == '/' {
+				cuts = append(cuts, i, i+1)
+			}
+		}
+		if len(cuts) > 0 {
+			return p[cuts[r.Intn(len(cuts))]:]
+		}
+	}
+	return p[r.Intn(len(p)):]
+}
+
+func c05ReservedByte(r *rand.Rand) byte {
+	switch k := r.Intn(20); {
+	case k < 12:
+		return '#'
+	case k < 15:
+		return 0
+	case k < 17:
+		return ':'
+	case k < 19:
+		return '*'
+	}
+	return "/=a"[r.Intn(3)]
+}
+
+// c05BlindTail: a complete pattern (instantiated, or its literal text), a reserved byte, more text.
+func c05BlindTail(r *rand.Rand, keys []string) string {
+	k := keys[r.Intn(len(keys))]
+	p := c05BenignInst(r, k)
+	if r.Intn(6) == 0 {
+		p = k
+	}
+	tail := ""
+	switch t := r.Intn(20); {
+	case t < 4:
+	case t < 17:
+		tail = c05TailOf(r, keys)
+	default:
+		tail = c05Text(r, true)
+	}
+	return p + string([]byte{c05ReservedByte(r)}) + tail
+}
+
+// The real array of the table, read through the hook, steers a second family of paths: wherever a cell
+// carries the CHECK of a reserved byte ('#' end-of-key cells, ':' and '*' cells, unused cells with CHECK 0)
+// a lookup that followed that byte as an edge would go on from the cell's BASE. c05Guided spells the paths
+// that reach such a cell and then keep walking over cells that happen to fit, towards an end-of-key cell.
+// Only the choice of inputs uses the array; what the answers must be is decided by the model and the spec.
+type c05Arr []uint32
+
+func (a c05Arr) edge(idx int, c byte) (int, bool) {
+	if idx < 0 || idx >= len(a) {
+		return 0, false
+	}
+	j := int(a[idx]>>10) ^ int(c)
+	if j < len(a) && byte(a[j]) == c {
+		return j, true
+	}
+	return 0, false
+}
+
+// astray walks from cell j as if it were a node; it returns the byte strings after which an end-of-key
+// cell is in reach, and the longest string walked.
+func (a c05Arr) astray(r *rand.Rand, j int) []string {
+	var out []string
+	cur, text := j, ""
+	for step := 0; step < 48; step++ {
+		if _, ok := a.edge(cur, '#'); ok {
+			out = append(out, text)
+		}
+		var cs []int
+		for c := 1; c < 256; c++ {
+			if c == '#' || c == '*' {
+				continue
+			}
+			if _, ok := a.edge(cur, byte(c)); ok {
+				cs = append(cs, c)
+			}
+		}
+		if len(cs) == 0 {
+			break
+		}
+		c := byte(cs[r.Intn(len(cs))])
+		cur, _ = a.edge(cur, c)
+		if c == ':' {
+			text += c05Benign[r.Intn(len(c05Benign))]
+		} else {
+			text += string([]byte{c})
+		}
+	}
+	if text != "" && (len(out) == 0 || out[len(out)-1] != text) {
+		out = append(out, text)
+	}
+	return out
+}
+
+func c05Guided(r *rand.Rand, bc []uint32, limit int) []string {
+	a := c05Arr(bc)
+	hits := map[byte][]string{}
+	var plain []string
+	visited := 0
+	var dfs func(idx int, prefix string, depth int)
+	dfs = func(idx int, prefix string, depth int) {
+		if depth > 96 || visited > 6000 {
+			return
+		}
+		visited++
+		for _, rb := range []byte{'#', 0, ':', '*'} {
+			j, ok := a.edge(idx, rb)
+			if !ok {
+				continue
+			}
+			conts := a.astray(r, j)
+			for _, ct := range conts {
+				hits[rb] = append(hits[rb], prefix+string([]byte{rb})+ct)
+			}
+			if len(conts) == 0 && rb == '#' {
+				plain = append(plain, prefix+"#")
+			}
+		}
+		for c := 1; c < 256; c++ {
+			j, ok := a.edge(idx, byte(c))
+			if !ok || c == '#' || c == '*' {
+				continue
+			}
+			if c == ':' {
+				dfs(j, prefix+c05Benign[r.Intn(len(c05Benign))], depth+1)
+			} else {
+				dfs(j, prefix+string([]byte{byte(c)}), depth+1)
+			}
+		}
+	}
+	if len(a) > 1 {
+		dfs(1, "", 0)
+	}
+	// half of the budget to the end-of-key byte, the rest shared by NUL, ':' and '*'; unused shares move on
+	var out []string
+	share := map[byte]int{'#': limit / 2, 0: limit / 6, ':': limit / 6, '*': limit / 6}
+	left := 0
+	for _, rb := range []byte{0, ':', '*', '#'} {
+		h := hits[rb]
+		r.Shuffle(len(h), func(i, j int) { h[i], h[j] = h[j], h[i] })
+		n := share[rb] + left
+		if len(h) < n {
+			left = n - len(h)
+			n = len(h)
+		} else {
+			left = 0
+		}
+		out = append(out, h[:n]...)
+	}
+	r.Shuffle(len(plain), func(i, j int) { plain[i], plain[j] = plain[j], plain[i] })
+	if len(plain) > 4 {
+		plain = plain[:4]
+	}
+	return append(out, plain...)
+}
+
+func c05DumpBC(keys []string) []uint32 {
+	rt, e, p := c05Build(keys, c05Iota(len(keys)))
+	if e != "" || p != "" {
+		return nil
+	}
+	bc, _, _, _ := denco.VerifDump(rt)
+	return bc
+}
+
+func c05TailPaths(r *rand.Rand, keys []string, nPlain, nBlind, nGuided int) (paths []Bs, origin []string) {
+	seen := map[string]bool{}
+	add := func(p, o string) {
+		if !seen[p] {
+			seen[p] = true
+			paths = append(paths, Bs(p))
+			origin = append(origin, o)
+		}
+	}
+	for i := 0; i < nPlain; i++ {
+		add(c05BenignInst(r, keys[r.Intn(len(keys))]), "inst")
+	}
+	for i := 0; i < nBlind; i++ {
+		add(c05BlindTail(r, keys), "tail")
+	}
+	if nGuided > 0 {
+		for _, p := range c05Guided(r, c05DumpBC(keys), nGuided) {
+			add(p, "guided")
+		}
+	}
+	return
+}
+
+func c05GenVerbs(r *rand.Rand) c05In {
+	keys := c05VerbTable(r, 3+r.Intn(10))
+	paths, origin := c05VerbPaths(r, keys, 30)
+	p2, o2 := c05Paths(r, keys, 6)
+	return c05In{Kind: "tab", Pats: toBs(keys), Paths: append(paths, p2...), Origin: append(origin, o2...), Flavour: "verbs"}
+}
+
+func c05GenTails(r *rand.Rand, withArrays bool) c05In {
+	keys := c05ApiTable(r, 10+r.Intn(31))
+	for n := r.Intn(3); n > 0; n-- {
+		k := "/" + c05Res[r.Intn(len(c05Res))] + "/" + c05Res[r.Intn(len(c05Res))]
+		if c05TableInDomain(append(append([]string{}, keys...), k)) {
+			keys = append(keys, k)
+		}
+	}
+	paths, origin := c05TailPaths(r, keys, 5, 45, 40)
+	kind := "look"
+	if withArrays {
+		kind = "tab"
+	}
+	return c05In{Kind: kind, Pats: toBs(keys), Paths: paths, Origin: origin, Flavour: "tails"}
+}
+
 func (c05) Gen(r *rand.Rand, tier string, i int) any {
+	// two families are scheduled by the case index, so that every seed runs them: reserved bytes inside a
+	// literal segment of a key (i = 1 mod 10), reserved byte after a complete pattern on 10-40 routes (i = 6 mod 10)
+	switch i % 10 {
+	case 1:
+		return c05GenVerbs(r)
+	case 6:
+		return c05GenTails(r, i%20 == 6 || tier == "thorough")
+	}
 	switch k := r.Intn(100); {
 	case k < 70:
 		keys := c05Table(r, c05Size(r, tier))
@@ -663,6 +1141,77 @@ func (c05) Gen(r *rand.Rand, tier string, i int) any {
 	}
 }
 
+var c05MidTables = [][]string{
+	{"/v1/op:list", "/v1/op/:id", "/g/a*b", "/v1/op:list/:id"},
+	{"/api/users:get", "/api/users/:id", "/api/users/:id/wait", "/files/a*b", "/files/*rest", "/x:", "/a=b:c", "/k/a*:b", "/api/users"},
+	{"/a:b", "/a*b", "/a/:b", "/a/*b", "/a=:b"},
+}
+
+var c05ApiFixed = []string{
+	"/projects/:project/jobs", "/projects/:project/jobs/:job", "/projects/:project/jobs/:job/logs", "/projects/:project/members",
+	"/projects/:project/members/:member", "/groups/:group/projects", "/groups/:group/members", "/groups/:group/labels/:label",
+	"/jobs/:job/artifacts/*path", "/jobs/:job/retry", "/runners/:runner/jobs", "/runners/:runner", "/labels/:label/issues",
+	"/issues/:issue/notes/:note", "/issues/:issue/labels", "/search/kind=:kind/items", "/health", "/projects",
+}
+
+func c05AllNearMisses(r *rand.Rand, keys []string) []string {
+	var out []string
+	for _, k := range keys {
+		out = append(out, c05NearMisses(r, k)...)
+	}
+	return out
+}
+
+func c05EnumTails(r *rand.Rand, keys []string) []any {
+	seen := map[string]bool{}
+	var paths []string
+	add := func(p string) {
+		if !seen[p] {
+			seen[p] = true
+			paths = append(paths, p)
+		}
+	}
+	for _, p := range c05Guided(r, c05DumpBC(keys), 240) {
+		add(p)
+	}
+	var insts, tails []string
+	for _, k := range keys {
+		p := c05BenignInst(r, k)
+		insts = append(insts, p)
+		for o := 0; o < len(p); o++ {
+			tails = append(tails, p[o:])
+		}
+	}
+	for _, p := range insts {
+		add(p)
+		for _, rb := range []byte{'#', 0, ':', '*'} {
+			add(p + string([]byte{rb}))
+		}
+		for n := 0; n < 60; n++ {
+			add(p + "#" + tails[r.Intn(len(tails))])
+		}
+		for n := 0; n < 6; n++ {
+			add(p + string([]byte{"\x00:*"[r.Intn(3)]}) + tails[r.Intn(len(tails))])
+		}
+	}
+	var out []any
+	for lo := 0; lo < len(paths); lo += 300 {
+		hi := lo + 300
+		if hi > len(paths) {
+			hi = len(paths)
+		}
+		in := c05In{Kind: "look", Pats: toBs(keys), Paths: toBs(paths[lo:hi]), Flavour: "tails"}
+		if lo == 0 {
+			in.Kind = "tab"
+		}
+		for range in.Paths {
+			in.Origin = append(in.Origin, "enum")
+		}
+		out = append(out, in)
+	}
+	return out
+}
+
 func (c05) Enumerate(tier string) []any {
 	var out []any
 	consts := map[string]int{"ParamCharacter": 58, "WildcardCharacter": 42, "TerminationCharacter": 35, "SeparatorCharacter": 47,
@@ -694,6 +1243,25 @@ func (c05) Enumerate(tier string) []any {
 			out = append(out, in)
 		}
 	}
+	// reserved bytes inside a literal segment: fixed tables (the first is ex_table_mid of Properties_C05.v),
+	// every key with its neighbours around each ':' / '*'
+	er := rand.New(rand.NewSource(5))
+	for _, keys := range c05MidTables {
+		in := c05In{Kind: "tab", Pats: toBs(keys), Flavour: "verbs"}
+		seen := map[string]bool{}
+		for _, p := range append([]string{"/v1/opXYZ", "/g/a/b/c", "/g/axb", "/v1/op/7", "/v1/opX/7"}, c05AllNearMisses(er, keys)...) {
+			if !seen[p] {
+				seen[p] = true
+				in.Paths = append(in.Paths, Bs(p))
+				in.Origin = append(in.Origin, "enum")
+			}
+		}
+		out = append(out, in)
+	}
+	// a reserved byte right after a complete pattern: a fixed table of parameterised routes; every pattern,
+	// instantiated, followed by '#' and by what is left of every other instantiated pattern from every offset
+	// (sampled down), by the other reserved bytes, and the paths its real array suggests
+	out = append(out, c05EnumTails(er, c05ApiFixed)...)
 	// small-scope exhaustive part: every path up to a length over {a b / : * #} against small tables
 	letters := []byte("ab/:*#")
 	var all func(n int) []string
@@ -818,6 +1386,15 @@ func (c05) Category(in0 any, obs0 any) (string, bool) {
 		}
 	}
 	cat := fmt.Sprintf("%s/%s/n=%s/%s", in.Kind, dom, size, strings.Join(fs, "+"))
+	if in.Flavour != "" {
+		cat = fmt.Sprintf("%s[%s]/%s/n=%s/%s", in.Kind, in.Flavour, dom, size, strings.Join(fs, "+"))
+	}
+	for _, k := range keys {
+		if !c05IsParamKey(k) && strings.ContainsAny(k, ":*") {
+			cat += "/static-key-with-reserved-byte"
+			break
+		}
+	}
 	if anyReserved {
 		cat += "/reserved-bytes-in-path"
 	}
@@ -829,7 +1406,7 @@ func (c05) Category(in0 any, obs0 any) (string, bool) {
 
 func (c05) Classify(in0 any, obs0 any) []string {
 	in := in0.(c05In)
-	if in.Kind != "tab" {
+	if in.Kind != "tab" && in.Kind != "look" {
 		return nil
 	}
 	var out []string
